@@ -76,6 +76,9 @@ func (r *request) executeInternal(next bool) {
 				break
 			} else {
 				r.client.proxy.logger.Debug("failed to send request to host", zap.Stringer("host", r.host), zap.Error(err))
+				// Move on to the next host: a retry on the same host (`next == false`) that cannot be sent, e.g. because
+				// the connection has no free stream or is closing, would otherwise spin here forever.
+				next = true
 			}
 		}
 	}
